@@ -200,7 +200,7 @@ def expected_op(names, k, chain):
     s = SIGS[k]
     tys = s['path'] + ['string'] * max(0, len(names) - len(s['path']))
     return {'path': [[n, t] for n, t in zip(names, tys)], 'query': sorted(map(tuple, s['query'])), 'body': s['body'], 'responses': sorted(s['responses']),
-            'security': [AUTH[f['k']] for f in chain if f['k'] in AUTH],
+            'security': sorted({AUTH[f['k']] for f in chain if f['k'] in AUTH}),          # one requirement object: every scheme of it must be satisfied (a set)
             'tags': ['t%d' % f['id'] for f in chain if f['k'] == 'tag']}
 
 
@@ -208,7 +208,7 @@ def read_op(op):
     ps = op.get('parameters', [])
     return {'path': [[p['name'], p['schema'].get('type')] for p in ps if p['in'] == 'path'], 'query': sorted((p['name'], p['schema'].get('type'), p['required']) for p in ps if p['in'] == 'query'),
             'body': (sorted(op['requestBody']['content']) + [None])[0] if 'requestBody' in op else None, 'responses': sorted(int(c) for c in op.get('responses', {})),
-            'security': [list(s)[0] for s in op.get('security', [])], 'tags': op.get('tags', [])}
+            'security': sorted({n for s in op.get('security', []) for n in s}), 'tags': op.get('tags', [])}
 
 
 TYPES = {'string', 'number', 'integer', 'boolean', 'array', 'object', 'null'}
@@ -276,6 +276,8 @@ def judge(case, out, m):
             exp, got = expected_op(names, k, chain), read_op(op)
             for field in ('path', 'query', 'body', 'responses', 'security', 'tags'):
                 if exp[field] != got[field]: v.append(('violation', f'{where} (handler h{k}): {field} documented as {got[field]}, the application has {exp[field]}'))
+            if len(op.get('security', [])) > 1:
+                v.append(('violation', f'{where}: {len(op["security"])} entries in `security` — they are alternatives (any ONE suffices, OpenAPI 3.1 4.8.10), but every authentication fang around the handler must be satisfied: {[f["k"] for f in chain if f["k"] in AUTH]}'))
             if bool(got['security']) != any(f['k'] in AUTH for f in chain): v.append(('violation', f'{where}: security requirement {got["security"]} but authentication fangs around it: {[f["k"] for f in chain]}'))
     # a request built from a documented operation reaches its handler
     for pr in out.get('probes', []):
@@ -293,7 +295,7 @@ def judge(case, out, m):
         for key in set(model_ops) & set(got_pairs):
             e, got = model_ops[key], read_op(got_pairs[key])
             me = {'path': [[p['name'], p['type']] for p in e['parameters'] if p['in'] == 'path'], 'query': sorted((p['name'], p['type'], p['required']) for p in e['parameters'] if p['in'] == 'query'),
-                  'body': e['body'], 'responses': sorted(e['responses']), 'security': e['security'], 'tags': e['tags']}
+                  'body': e['body'], 'responses': sorted(e['responses']), 'security': sorted(set(e['security'])), 'tags': e['tags']}
             if me != got: v.append(('disagree', f'{key}: impl {got} model {me}'))
     return v
 
